@@ -110,7 +110,7 @@ theorem LayN_slots (T : Array PNode) : ∀ (d : DNode) (idx base : Nat), LayN T 
     simp only [gW, Bool.and_eq_true] at hw
     simp only [descT] at h2 ⊢
     rw [descL_eq] at h2 ⊢
-    obtain ⟨d', b', q1, q2, q3, q4⟩ := LayL_slots T ds base (base + ds.length) hl.2.2.2.2 hw.2 g (by omega)
+    obtain ⟨d', b', q1, q2, q3, q4⟩ := LayL_slots T ds base (base + ds.length) hl.2.2.2 hw.2 g (by omega)
     exact ⟨d', b', q1, q2, by omega, by omega⟩
 theorem LayL_slots (T : Array PNode) : ∀ (ds : DList) (k base : Nat), LayL T ds k base → gWL ds = true →
     ∀ g, (k ≤ g ∧ g < k + ds.length) ∨ (base ≤ g ∧ g < base + descS ds) → SlotOK T g base (base + descS ds)
@@ -214,7 +214,7 @@ theorem sumN (T : Array PNode) (f : Nat → Nat) (φ : DNode → Nat → Nat →
     simp only [gW, Bool.and_eq_true] at hw
     simp only [descT] at hb
     rw [descL_eq] at hb
-    have ih := sumL T f φ hi H ds base (base + ds.length) hl.2.2.2.2 hw.2 (by omega)
+    have ih := sumL T f φ hi H ds base (base + ds.length) hl.2.2.2 hw.2 (by omega)
     simp only [descT, tsN]
     rw [descL_eq, isum_add, h0]
     omega
